@@ -48,6 +48,10 @@ class C05(Prop):
             else:
                 if len(o["delivered"]) < len(c["chunks"]):
                     res.append(("stream-incomplete:" + c["config"], "only %d of %d chunks were produced/observed" % (len(o["delivered"]), len(c["chunks"])), rp))
+                elif len(o["delivered"]) > len(c["chunks"]):
+                    res.append(("stream-restarted:" + c["config"], "the backend was made to produce %d chunks for a response of %d: the response was aborted on the way and the request sent again" % (len(o["delivered"]), len(c["chunks"])), rp))
+                elif c["config"] in ("plain", "h2c") and o.get("total_observed") != sum(c["chunks"]):
+                    res.append(("stream-total-differs:" + c["config"], "the proxy received %s body bytes in the completed upload, the backend wrote %d" % (o.get("total_observed"), sum(c["chunks"])), dict(rp, total_observed=o.get("total_observed"))))
         return res
 
     def model_check(self, ctx, obs):
